@@ -92,8 +92,9 @@ type Check struct {
 	Floors []string
 	// Exhaustive marks a completely enumerated finite space.
 	Exhaustive bool
-	// ChildPerCase forces one case list per child with crash attribution (C15/C20).
-	Serial bool
+	// DeathIsViolation: a worker that dies without a result is a violation of the
+	// property (C15/C20: "never crashes"), witnessed by the input it logged last.
+	DeathIsViolation bool
 }
 
 type Ctx struct {
@@ -104,6 +105,9 @@ type Ctx struct {
 	Of    int
 	N     int
 	Only  int // >=0: run only this case (replay)
+	// CurFile: a worker writes the input of the case it is about to run here, so
+	// that a process-fatal crash can be attributed to its input by the parent.
+	CurFile string
 }
 
 func (c *Ctx) mine(i int) bool {
@@ -167,6 +171,9 @@ func main() {
 	}
 	if *worker || *only >= 0 {
 		ctx := &Ctx{Prop: *prop, Tier: *tier, Seed: seed, Shard: *shard, Of: *of, N: ck.Cases(*tier), Only: *only}
+		if *out != "" {
+			ctx.CurFile = *out + ".cur"
+		}
 		res := ck.Run(ctx)
 		b, _ := json.Marshal(res)
 		if *out != "" {
@@ -279,6 +286,11 @@ func parent(ck *Check, tier string, seed int64, procs int) int {
 				}
 				if timedOut {
 					total.Inconclusive = append(total.Inconclusive, fmt.Sprintf("worker %d stopped by the wall-clock watchdog", i))
+				} else if cur, cerr := os.ReadFile(outf + ".cur"); ck.DeathIsViolation && cerr == nil {
+					var in interface{}
+					json.Unmarshal(cur, &in)
+					total.Violations = append(total.Violations, Witness{Prop: ck.Prop, Clause: "process-died", Msg: fmt.Sprintf("the process running the code under test died (%v)", werr),
+						Family: "death", Case: -1, Seed: seed, Tier: tier, Detail: map[string]interface{}{"last_input": in, "output_tail": tail}})
 				} else {
 					total.Inconclusive = append(total.Inconclusive, fmt.Sprintf("worker %d died without a result (%v): %s", i, werr, tail))
 				}
